@@ -13,27 +13,37 @@ EXTENDS Naturals, FiniteSets
 
 CONSTANT HoldMax
 
-VARIABLE pending    \* set of [n, src, id, qn, qt, tun, held]
+VARIABLES pending,   \* set of [n, src, id, qn, qt, tun, held]
+          done       \* questions <<src, qn, qt>> that have been answered at least once (repeats of those are
+                     \* answered from the server's memories at once and never count as held back)
 
-MAInit == pending = {}
+MAInit == pending = {} /\ done = {}
 
 Recv(n, src, id, qn, qt, tun) ==
-    pending' = pending \cup {[n |-> n, src |-> src, id |-> id, qn |-> qn, qt |-> qt,
-                              tun |-> tun, held |-> TRUE]}
+    /\ pending' = pending \cup {[n |-> n, src |-> src, id |-> id, qn |-> qn, qt |-> qt,
+                                 tun |-> tun, held |-> (<<src, qn, qt>> \notin done)]}
+    /\ UNCHANGED done
 
 Match(r, dst, id, qn, qt) == r.src = dst /\ r.id = id /\ r.qn = qn /\ r.qt = qt
 
-Ans(dst, id, qn, qt) ==
+\* hdr = the answer carries a tunnel data header (2 or more payload bytes, not an error text): only those are
+\* "answers to a held query"; 1-byte suppression replies, BADIP and the like are given at once by design
+Ans(dst, id, qn, qt, hdr) ==
     LET ms == {r \in pending : Match(r, dst, id, qn, qt)} IN
     /\ ms # {}
     /\ LET r == CHOOSE x \in ms : \A y \in ms : x.n <= y.n IN
-       pending' = {IF x.src = dst /\ x.qn = qn /\ x.qt = qt THEN [x EXCEPT !.held = FALSE] ELSE x
-                   : x \in pending \ {r}}
+       \* "answering the older one when a newer one arrives": a held tunnel query is not answered while an OLDER
+       \* tunnel query with another question from the same address is still held back
+       /\ (hdr /\ r.tun /\ r.held /\ r.id # 0) =>
+             ~\E o \in pending : /\ o.src = r.src /\ o.tun /\ o.held /\ o.id # 0 /\ o.qn # r.qn /\ o.n < r.n
+       /\ pending' = {IF x.src = dst /\ x.qn = qn /\ x.qt = qt THEN [x EXCEPT !.held = FALSE] ELSE x
+                      : x \in pending \ {r}}
+       /\ done' = done \cup {<<dst, qn, qt>>}
 
 HeldNames(s) == {r.qn : r \in {x \in pending : x.src = s /\ x.held /\ x.tun /\ x.id # 0}}
 
 StepEnd == /\ \A s \in {r.src : r \in pending} : Cardinality(HeldNames(s)) <= HoldMax
-           /\ UNCHANGED pending
+           /\ UNCHANGED <<pending, done>>
 
-MAReset == pending' = {}
+MAReset == pending' = {} /\ done' = {}
 =============================================================================
